@@ -1,7 +1,10 @@
 pub mod common;
+pub mod evalorder;
 pub mod lattice;
 pub mod parse_rt;
+pub mod patterns;
 pub mod query;
+pub mod schedules;
 pub mod scoping;
 pub mod text;
 
@@ -19,6 +22,9 @@ pub fn all() -> Vec<Box<dyn Family>> {
         Box::new(query::QueryTotal),
         Box::new(query::QueryAgree),
         Box::new(scoping::Scoping),
+        Box::new(patterns::Patterns),
+        Box::new(evalorder::EvalOrder),
+        Box::new(schedules::Schedules),
     ]
 }
 
